@@ -101,7 +101,7 @@ for _shape in [(2, 2), (2, 3), (3, 2), (3, 3), (3, 4), (4, 4), (4, 3)]:
 for _shape in [(2, 2), (3, 3)]:
     _mk_roundtrip(_shape, shift=False)
 _mk_roundtrip((3, 2), cplx=False)
-for _shape in [(6, 3), (6, 6), (4, 6), (2, 4), (2, 6)]:
+for _shape in [(6, 3), (6, 6), (4, 6), (2, 4), (2, 6), (8, 2), (3, 8), (8, 8), (12, 3)]:
     _mk_roundtrip(_shape, tier='thorough')
 for _shape in [(3, 4), (4, 4)]:
     _mk_roundtrip(_shape, tier='thorough', shift=False)
@@ -525,3 +525,55 @@ def propagate_energy(S):
         for k in range(N):
             a2, b2 = _abs2(fout[k]), _abs2(fin[k])
             S.claim(f'per_frequency{shape}[{k}]', a2 <= b2 * (1 + 1e-9) + 1e-12 if not S.sym else a2 <= b2)
+
+
+# ---------------------------------------------------------------------------
+# images whose coordinates do not start at 0 (cropped sub-images)
+# ---------------------------------------------------------------------------
+
+def _offset_image(S, shape, spacing, origin, name='x'):
+    img, vals = _image(S, shape, cplx=True, spacing=spacing, name=name)
+    return img.assign_coords(x=img.x.values + origin[0], y=img.y.values + origin[1]), img, vals
+
+
+@obligation('C17.propagate.offset_origin', functions=PR, nvalid=2, timeout_s=120,
+            bounds='2x3 complex image (all pixels symbolic), spacing 0.5, coordinates starting at (1.0, 1.5) as in a '
+                   'cropped sub-image, symbolic distance d != 0 and the list [d, d2]: the result keeps the input\'s '
+                   'pixel coordinates and metadata, and its values equal those for the same pixels at origin 0',
+            stubs=['np.fft.fft2/ifft2 := exact symbolic DFT'])
+def propagate_offset_origin(S):
+    _setup(S)
+    shape = (2, 3)
+    sub, img0, vals = _offset_image(S, shape, 0.5, (1.0, 1.5))
+    d, d2 = S.real('d', nonzero=True), S.real('d2', nonzero=True)
+    S.assume(d != d2)
+    for tag, dist, nz in (('single', d, 1), ('list', [d, d2], 2)):
+        res = propagate(sub, dist)
+        ref = propagate(img0, dist)
+        S.claim(f'{tag}.coords_x', bool(np.allclose(res.x.values, sub.x.values, atol=1e-12)))
+        S.claim(f'{tag}.coords_y', bool(np.allclose(res.y.values, sub.y.values, atol=1e-12)))
+        S.claim(f'{tag}.attrs_kept', res.attrs.get('medium_index') == 1.33 and res.attrs.get('illum_wavelen') == 0.66)
+        S.claim_eq(f'{tag}.values', np.asarray(res.transpose(..., 'x', 'y').values).reshape(-1),
+                   np.asarray(ref.transpose(..., 'x', 'y').values).reshape(-1))
+        if tag == 'single':
+            S.observe('res', res.values)
+    S.claim('input_coords_untouched', bool(np.allclose(sub.x.values, [1.0, 1.5])))
+
+
+@obligation('C17.fft_ifft.offset_origin', functions=[FF + 'fft', FF + 'ifft', FF + 'transform_metadata',
+                                                     FF + 'ft_coords', FF + 'ift_coords', FF + 'ft_coord',
+                                                     FF + 'ift_coord', FF + 'get_spacing'], nvalid=2,
+            bounds='3x2 complex image (all pixels symbolic), spacing (0.1, 0.25), coordinates starting at (0.2, 0.75): '
+                   'ifft(fft(img)) returns the values, the pixel spacing and the coordinates',
+            stubs=['np.fft.fft2/ifft2 := exact symbolic DFT'])
+def roundtrip_offset_origin(S):
+    _setup(S)
+    shape = (3, 2)
+    sub, img0, vals = _offset_image(S, shape, (0.1, 0.25), (0.2, 0.75))
+    back = ifft(fft(sub))
+    S.observe('back', back.values)
+    S.claim_eq('values', back.values.reshape(shape), vals)
+    S.claim('spacing_x', bool(np.allclose(np.diff(back.x.values), np.diff(sub.x.values), atol=1e-12)))
+    S.claim('spacing_y', bool(np.allclose(np.diff(back.y.values), np.diff(sub.y.values), atol=1e-12)))
+    S.claim('coords_x', bool(np.allclose(back.x.values, sub.x.values, atol=1e-12)))
+    S.claim('coords_y', bool(np.allclose(back.y.values, sub.y.values, atol=1e-12)))
